@@ -87,6 +87,11 @@ func (g *G) stmt(bd int) []hs.Stmt {
 	case r < 42:
 		return []hs.Stmt{g.letStmt(d)}
 	case r < 56:
+		if g.c.Options && !g.c.Pure && g.chance("optOfPlace", 12) {
+			if st, ok := g.optOfPlace(d); ok {
+				return st
+			}
+		}
 		if s, ok := g.assignStmt(d); ok {
 			return []hs.Stmt{s}
 		}
@@ -378,7 +383,14 @@ func (g *G) assignStmt(d int) (hs.Stmt, bool) {
 		t = f.T
 		g.feat("assign-field")
 	} else if t.K == hs.KList && g.chance("assignElem", 50) && !g.c.off("assign-elem") {
-		target = hs.Index{X: target, I: hs.IntLit{V: int64(g.intn("assignIdx", -1, 0))}, T: *t.Elem}
+		var ix hs.Expr = hs.IntLit{V: int64(g.intn("assignIdx", -1, 0))}
+		if !g.c.Pure && g.chance("noisyIdx", 35) {
+			// the index has an effect of its own: a place is evaluated once, also by a compound assignment
+			ix = &hs.Block{T: hs.TInt, Tail: ix, Stmts: []hs.Stmt{hs.ExprStmt{X: hs.Call{Fn: hs.Ident{Name: "println"},
+				Args: []hs.Expr{hs.StrLit{V: "ix"}, hs.IntLit{V: int64(g.intn("noisyIdxTag", 0, 9))}}, T: hs.TNull}}}}
+			g.feat("assign-elem-noisy-index")
+		}
+		target = hs.Index{X: target, I: ix, T: *t.Elem}
 		t = *t.Elem
 		g.feat("assign-elem")
 	}
@@ -421,6 +433,56 @@ func (g *G) assignStmt(d int) (hs.Stmt, bool) {
 		g.feat("compound-assign")
 	}
 	return hs.ExprStmt{X: hs.Assign{Op: op, L: target, R: r}}, true
+}
+
+// optOfPlace: `let o = ?l[i];` (or `?obj.f`), then the element / field is overwritten in place, then the option is
+// read: an option holds the value it was made from, not the place.
+func (g *G) optOfPlace(d int) ([]hs.Stmt, bool) {
+	type place struct {
+		x hs.Expr
+		t hs.Type
+	}
+	var cands []place
+	scalar := func(t hs.Type) bool {
+		return t.K == hs.KInt || t.K == hs.KStr || t.K == hs.KFloat || t.K == hs.KBool
+	}
+	for _, v := range g.visible() {
+		if v.noWrite {
+			continue
+		}
+		id := hs.Ident{Name: v.name, T: v.t}
+		switch {
+		case v.t.K == hs.KList && scalar(*v.t.Elem) && !g.c.off("assign-elem"):
+			cands = append(cands, place{hs.Index{X: id, I: hs.IntLit{V: int64(g.intn("optIdx", -1, 0))}, T: *v.t.Elem}, *v.t.Elem})
+		case v.t.K == hs.KObj:
+			for _, f := range v.t.Fields {
+				if scalar(f.T) {
+					cands = append(cands, place{hs.Member{X: id, Name: f.Name, T: f.T}, f.T})
+				}
+			}
+		}
+	}
+	if len(cands) == 0 {
+		return nil, false
+	}
+	pl := cands[g.pick("optPlace", len(cands))]
+	if pl.t.K == hs.KStr && !g.c.Strings {
+		return nil, false
+	}
+	ot := hs.TOpt(pl.t)
+	name := g.fresh("v")
+	op := "="
+	if pl.t.K == hs.KInt && g.chance("optPlaceCompound", 50) {
+		op = "+="
+	}
+	st := []hs.Stmt{
+		hs.Let{Name: name, X: hs.Prefix{Op: "?", X: pl.x, T: ot}},
+		hs.ExprStmt{X: hs.Assign{Op: op, L: pl.x, R: g.literal(pl.t)}},
+		hs.ExprStmt{X: hs.Call{Fn: hs.Ident{Name: "println"}, Args: []hs.Expr{hs.Ident{Name: name, T: ot}}, T: hs.TNull}},
+	}
+	g.declare(varInfo{name: name, t: ot})
+	g.feat("opt-of-place")
+	return st, true
 }
 
 func (g *G) mutateStmt(d int) (hs.Stmt, bool) {
